@@ -1593,6 +1593,9 @@ func (m Members) Marshal(primary TypeAndNamespace, buffer []byte) int {
 		if int(role>>b6.FeatureTypeBits) != member.Role {
 			panic("Can't encode role")
 		}
+		if member.Type < 0 || member.Type >= (1<<b6.FeatureTypeBits) {
+			panic("Can't encode member type")
+		}
 		role |= uint64(member.Type)
 		i += binary.PutUvarint(buffer[i:], uint64(role))
 		i += member.ID.Marshal(primary, buffer[i:])
